@@ -77,7 +77,23 @@ class C05(PropertyCheck):
     lean_modules = ["QipVerif.Props.C05"]
     drivers = ["drv_sched"]
     theorems = [
+        "QipVerif.C05.gateCycles_eq",
+        "QipVerif.C05.real_oracle_perm",
+        "QipVerif.C05.cycles_partition",
+        "QipVerif.C05.dep_edges_forward",
+        "QipVerif.C05.cycle_disjoint",
+        "QipVerif.C05.order_respected",
+        "QipVerif.C05.order_kept_without_permutation",
+        "QipVerif.C05.comm_rules_symm",
+        "QipVerif.C05.trace_lemma",
+        "QipVerif.C05.schedule_den_partial",
+        "QipVerif.C05.schedule_den_partial_rev",
+        "QipVerif.C05.schedule_den_partial_ins",
         "QipVerif.C05.C05_counterexample_order",
+        "QipVerif.C05.C05_counterexample_den",
+        "QipVerif.C05.comm_rule_table",
+        "QipVerif.C05.comm_rule_abstraction",
+        "QipVerif.C05.comm_rule_abs_table",
     ]
     level_text = ""
     level_note = ""
